@@ -2769,7 +2769,10 @@ def judge(prop, case, obs, ans, st, shrink_left):
         known0 = known_sig(wit0)
 
         def still(c):
-            o = run_impl(c, keep_raw=False)
+            try:
+                o = run_impl(c, keep_raw=False)
+            except HistoryMismatch:
+                return False          # the shrunk candidate no longer has its earlier run: not a candidate
             p, w, _ = py_monitors(c, o)
             bad = [k for k in keys if not p.get(k, True)]
             if prop == 'C02' and o['err'] is not None and o['err'] not in ('not-found',) and obs['err'] == o['err']:
@@ -2784,7 +2787,10 @@ def judge(prop, case, obs, ans, st, shrink_left):
             base.pop('schedule', None)
             small = shrink(base, still, max_tests=120, max_seconds=min(15.0, shrink_left))
             used = time.time() - t0
-        o2 = run_impl(small, keep_raw=False)
+        try:
+            o2 = run_impl(small, keep_raw=False)
+        except HistoryMismatch:
+            small, o2 = case, obs
         p2, w2, _ = py_monitors(small, o2)
         bad2 = [k for k in keys if not p2.get(k, True)]
         if obs['err'] and o2['err'] == obs['err'] and not bad2 and prop == 'C02':
